@@ -30,6 +30,8 @@ package main
 // the transfer with an error at that envelope (shape-fault-*).
 
 import (
+	"fmt"
+	"net"
 	"strings"
 
 	"github.com/miekg/dns"
@@ -45,6 +47,14 @@ type hdrSpec struct {
 	Opt        bool   `json:"opt_record,omitempty"` // an OPT record in the additional section (before the TSIG record)
 	// Compress: 0 as the case says, 1 on, 2 off
 	Compress int `json:"compress,omitempty"`
+	// further additional records (glue A records) before / after the OPT record; with a TSIG
+	// record the additional section is then [glue.., OPT, glue.., TSIG]
+	GlueBefore int `json:"additional_records_before_opt,omitempty"`
+	GlueAfter  int `json:"additional_records_after_opt,omitempty"`
+}
+
+func glueRR(i int) dns.RR {
+	return &dns.A{Hdr: dns.RR_Header{Name: "ns." + zone, Rrtype: dns.TypeA, Class: dns.ClassINET, Ttl: 3600}, A: net.IPv4(192, 0, 2, byte(1+i)).To4()}
 }
 
 func (h *hdrSpec) apply(c xcase, m *dns.Msg) {
@@ -56,11 +66,17 @@ func (h *hdrSpec) apply(c xcase, m *dns.Msg) {
 	m.Authoritative = !h.NotAA
 	m.RecursionAvailable = h.RA
 	m.RecursionDesired = h.RD
+	for i := 0; i < h.GlueBefore; i++ {
+		m.Extra = append(m.Extra, glueRR(i))
+	}
 	if h.Opt {
 		o := new(dns.OPT)
 		o.Hdr.Name, o.Hdr.Rrtype = ".", dns.TypeOPT
 		o.SetUDPSize(1232)
 		m.Extra = append(m.Extra, o)
+	}
+	for i := 0; i < h.GlueAfter; i++ {
+		m.Extra = append(m.Extra, glueRR(h.GlueBefore+i))
 	}
 	switch h.Compress {
 	case 1:
@@ -290,6 +306,61 @@ func shapeFamilies(r0 *Rng, thorough bool) {
 						c.Reads[k].Hdr.Opt = false
 						c.Reads[k].Sig.Tamper = true
 						runOne(c, &expect{deliver: k, then: "error", key: kTsig, why: "an altered envelope must end the transfer with an error, with or without a question section"}, true)
+					}
+				}
+			}
+		}
+	}
+}
+
+// extRcodeFamilies: envelopes whose error RCODE lives (partly or only) in the extended
+// RCODE bits of the OPT record (RFC 6891 6.1.3): 16, 17, 22, 23, 32, 4095 have a header
+// RCODE nibble of 0, 1, 6, 7, 0, 15.  The OPT record is the only additional record, the
+// first one (glue after it), in the middle, or the last one; with TSIG the TSIG record
+// follows in every case.  The RCODE of the envelope is non-zero, so the transfer must end
+// with an error at that envelope, whatever else the additional section holds.
+func extRcodeFamilies(r0 *Rng, thorough bool) {
+	r := &Rng{S: r0.S ^ 0x0e87c0de}
+	type ks struct {
+		kind   string
+		stream []rrd
+	}
+	streams := []ks{{"axfr", axfrStream(5, 2)}, {"ixfr", ixfrStream(5, []diffd{{3, 5, 1, 1}})}, {"ixfr", axfrStream(5, 1)}, {"axfr", axfrStream(5, 0)}}
+	rcodes := []int{16, 17, 22, 23, 32, 4095, 48, 0x800, 0xff0, 19}
+	places := [][2]int{{0, 0}, {0, 1}, {1, 1}, {1, 0}, {0, 3}, {2, 2}}
+	idx := 0
+	for _, fs := range streams {
+		for _, envs := range compositions(fs.stream) {
+			for k := range envs {
+				for pi, pl := range places {
+					for _, tsig := range []bool{false, true} {
+						rcs := rcodes
+						if !thorough {
+							// low nibble 0 always; one of the others in rotation
+							rcs = []int{rcodes[(idx%3)*4%len(rcodes)], rcodes[idx%len(rcodes)]}
+							if pi >= 4 {
+								rcs = rcs[:1]
+							}
+						}
+						for _, rc := range rcs {
+							idx++
+							c := base(fs.kind, tsig, "ext-rcode", r)
+							c.Compress = idx%3 == 0
+							c.Reads = goodReads(c, envs, tsig)
+							for i := range c.Reads {
+								c.Reads[i].Hdr = &hdrSpec{}
+								if (idx+i)%4 == 0 {
+									// the good envelopes carry such additional sections as well (RCODE 0)
+									c.Reads[i].Hdr = &hdrSpec{Opt: true, GlueBefore: pl[0], GlueAfter: pl[1]}
+								}
+							}
+							c.Reads[k].Hdr = &hdrSpec{Opt: true, GlueBefore: pl[0], GlueAfter: pl[1], NoQuestion: k > 0 && idx%5 == 0}
+							c.Reads[k].Rcode = rc
+							if tsig && idx%2 == 0 {
+								c.Reads[k].Sig.Ref = true
+							}
+							runOne(c, &expect{deliver: k, then: "error", key: kErr, why: fmt.Sprintf("an envelope whose RCODE is %d (header nibble %d, the rest in the OPT record's extended RCODE bits; additional section: %d record(s), OPT, %d record(s)%s) has a non-zero RCODE and must end the transfer with an error", rc, rc&15, pl[0], pl[1], map[bool]string{false: "", true: ", TSIG"}[tsig])}, true)
+						}
 					}
 				}
 			}
